@@ -22,6 +22,15 @@ def parseDocs (s : String) : Option (List (String × Int)) :=
 
 def parseIds (s : String) : List String := splitList s ","
 
+/-- a `sub_run_spec`: `rid` (all) or `rid@a@b` (window), comma separated; returns ids in listing order + selection -/
+def parseSpec (s : String) : Option (List String × Sel) := do
+  let items ← (splitList s ",").mapM fun tok =>
+    match tok.splitOn "@" with
+    | [rid] => some (rid, (none : Option (Int × Int)))
+    | [rid, a, b] => do pure (rid, some (← a.toInt?, ← b.toInt?))
+    | _ => none
+  pure (items.map (·.1), items.filterMap fun (r, o) => o.map fun tr => (r, tr))
+
 /-- `start~stop~rows` -/
 def parseRawC (s : String) : Option RawC :=
   match s.splitOn "~" with
@@ -36,8 +45,10 @@ def parseSrc (s : String) : Option (List (String × List RawC)) :=
     | _ => none
 
 /-- the concrete stand-in for the hash in the driver: an injective printing of (sorted spec, combining) -/
-def keyH (spec : List String) (combining : Bool) : String :=
-  ",".intercalate spec ++ (if combining then "+c" else "+n")
+def keyH (items : List (String × Option (Int × Int))) (combining : Bool) : String :=
+  ",".intercalate (items.map fun (r, o) => match o with
+    | none => r
+    | some (a, b) => s!"{r}@{a}@{b}") ++ (if combining then "+c" else "+n")
 
 def showIdsL (l : List String) : String := if l.isEmpty then "-" else ",".intercalate l
 
@@ -57,25 +68,25 @@ def showStoredLevels (w : World) (key : Key String) (store : Store String) : Str
     | some cs => s!"{lv.dataType}:" ++ (if cs.isEmpty then "()" else ";".intercalate (cs.map showMeta)))
 
 /-- the whole scenario of one correspondence case, see checks/props/c14.py -/
-def scenario (w : World) (docs : List (String × Int)) (data1 data2 : List String) (n : Nat)
+def scenario (w : World) (docs : List (String × Int)) (data1 : List String) (sel1 : Sel) (data2 : List String) (sel2 : Sel) (n : Nat)
     (combining write : Bool) (premake : Option Nat) : Except Err String := do
   let spec1 ← definedSpec Generated.runDocSortKeys docs data1
   let store : Store String := []
   let store ← match premake with
     | none => pure store
     | some p => do
-      let (_, st) ← superGet keyH w spec1 store p false write
+      let (_, st) ← superGet keyH w spec1 sel1 store p false write
       pure st
-  let (y1, store) ← superGet keyH w spec1 store n combining write
-  let key1 := superrunKey keyH w.superName spec1 combining
+  let (y1, store) ← superGet keyH w spec1 sel1 store n combining write
+  let key1 := superrunKey keyH w.superName spec1 sel1 combining
   let m1 := showStoredLevels w key1 store
-  let (y2, store) ← superGet keyH w spec1 store n combining write
-  let stored1 := isStored keyH w spec1 store n combining
+  let (y2, store) ← superGet keyH w spec1 sel1 store n combining write
+  let stored1 := isStored keyH w spec1 sel1 store n combining
   let spec2 ← definedSpec Generated.runDocSortKeys docs data2
-  let same := decide (superrunKey keyH w.superName spec2 combining = key1)
-  let stored2 := isStored keyH w spec2 store n combining
-  let (y3, store) ← superGet keyH w spec2 store n combining write
-  let stored3 := isStored keyH w spec1 store n combining
+  let same := decide (superrunKey keyH w.superName spec2 sel2 combining = key1)
+  let stored2 := isStored keyH w spec2 sel2 store n combining
+  let (y3, store) ← superGet keyH w spec2 sel2 store n combining write
+  let stored3 := isStored keyH w spec1 sel1 store n combining
   -- single-run results of every documented run (what the oracle concatenates)
   let base ← docs.mapM fun (rid, _) => do
     let cs ← subrunStored w rid n
@@ -95,7 +106,8 @@ def handleC14 : List String → Option String
     pure <| showExcept (fun l => s!"passed={showIdsL l} stored={showIdsL (runDocSpec Generated.runDocSortKeys l)}") (defineRun docs (parseIds data))
   | ["c14.samekey", s1, c1, s2, c2] => do
     let c1 ← parseBool c1; let c2 ← parseBool c2
-    let same := decide (superrunKey keyH "_s" (parseIds s1) c1 = superrunKey keyH "_s" (parseIds s2) c2)
+    let (i1, l1) ← parseSpec s1; let (i2, l2) ← parseSpec s2
+    let same := decide (superrunKey keyH "_s" i1 l1 c1 = superrunKey keyH "_s" i2 l2 c2)
     pure s!"ok {same}"
   | "c14.iter" :: lv :: runId :: cs => do
     let lvs ← parseLevels lv; let lv ← lvs.head?; let cs ← cs.mapM parseRawChunk
@@ -103,8 +115,9 @@ def handleC14 : List String → Option String
   | ["c14.super", name, levels, n, combining, write, premake, docs, data1, data2, src] => do
     let levels ← parseLevels levels; let n ← n.toNat?; let c ← parseBool combining; let wr ← parseBool write
     let pm ← parseNatOpt premake; let docs ← parseDocs docs; let src ← parseSrc src
+    let (d1, l1) ← parseSpec data1; let (d2, l2) ← parseSpec data2
     let w : World := ⟨Generated.getSplitsArgmin0, superName name, levels, src⟩
-    pure <| showExcept id (scenario w docs (parseIds data1) (parseIds data2) n c wr pm)
+    pure <| showExcept id (scenario w docs d1 l1 d2 l2 n c wr pm)
   | "c14.concat" :: rest => handleC07 ("concat" :: rest)
   | "c14.continuity" :: cs => do
     let cs ← cs.mapM parseRawChunk
